@@ -25,7 +25,7 @@ const (
 )
 
 var c08Tris = []string{"excludesSpecialPaths", "planOrBypassOnSubGroups", "planShape", "scanEqCanonical",
-	"bucketPagingAfterFilter", "scanPagingAfterFilter", "labelReattach", "bucketChecksAttr",
+	"bucketPagingAfterFilter", "scanPagingAfterFilter", "labelReattach", "pagedQueriesBypass", "bucketChecksAttr",
 	"lookupInDedupes", "unionDedupes", "bucketWindowTimeOnly", "execPreconditions", "extractorsStandard", "canonStandard", "scanLeafStandard"}
 
 var c08OpNames = map[string][2]string{ // proto name → (Lean constructor, show)
@@ -173,22 +173,32 @@ func c08Stream(fs *Facts, f *File) {
 	}
 	where := c08At(c08Gateway, f, fd)
 	src := f.Str(fd.Body)
-	branch := "if plan.Mode != PlanModeBypass && bucketExecPreconditions(beaconType) { candidates := collectBucketCandidates(swampInterface, plan.Hints) candidates = applyTimeRange(candidates, beaconType, fromTime, toTime) sortCandidates(candidates, beaconType, order) treasures = applyFromLimit(candidates, in.GetFrom(), in.GetLimit()) residualFilters = plan.Residual } else {"
+	steps := "candidates := collectBucketCandidates(swampInterface, plan.Hints) candidates = applyTimeRange(candidates, beaconType, fromTime, toTime) sortCandidates(candidates, beaconType, order) treasures = applyFromLimit(candidates, in.GetFrom(), in.GetLimit()) residualFilters = plan.Residual"
+	gateOld := "if plan.Mode != PlanModeBypass && bucketExecPreconditions(beaconType) { "
+	gateNew := "if plan.Mode != PlanModeBypass && bucketExecPreconditions(beaconType) && in.GetFrom() == 0 && in.GetLimit() == 0 { "
+	relabel := " if hasAnyLabels(filters) { residualFilters = filters }"
 	scan := "treasures, err = swampInterface.GetTreasuresByBeacon( beaconType, order, in.GetFrom(), in.GetLimit(), fromTime, toTime)"
 	if !strings.Contains(src, "plan := PlanFilter(filters)") {
 		return
 	}
-	if strings.Contains(src, branch) {
+	gated := strings.Contains(src, gateNew+steps)
+	if gated || strings.Contains(src, gateOld+steps) {
 		fs.Tri("bucketPagingAfterFilter", No, where)
+		fs.Tri("pagedQueriesBypass", TriOf(gated), where)
 		fs.Tri("bucketChecksAttr", No, where) // refined by c08ExecFacts
 	}
-	if strings.Contains(src, scan) && strings.Contains(src, "residualFilters = filters") {
+	if strings.Contains(src, scan) && strings.Contains(src, "residualFilters = filters } maxResults") {
 		fs.Tri("scanPagingAfterFilter", No, where)
 	}
 	if strings.Contains(src, "needsMeta := hasAnyLabels(residualFilters)") &&
 		strings.Contains(src, "matched, meta = evaluateNativeFilterGroupWithMeta(treasureInterface, residualFilters)") &&
 		!strings.Contains(src, "plan.Hints[") && strings.Count(src, "MatchedLabels") == 1 {
-		fs.Tri("labelReattach", No, where)
+		switch {
+		case strings.Contains(src, steps+relabel+" } else {"):
+			fs.Tri("labelReattach", Yes, where)
+		case strings.Contains(src, steps+" } else {"):
+			fs.Tri("labelReattach", No, where)
+		}
 	}
 }
 
@@ -209,21 +219,33 @@ func c08ExecFacts(fs *Facts, f *File) {
 			}
 		}
 	}
-	// attribute check: the time-range step passes everything through when there is no window, and
-	// nothing else looks at the timestamp
+	// applyTimeRange: which candidates it lets through without looking at a window, and whether it
+	// drops candidates without the timestamp
 	tr := f.Func("", "applyTimeRange")
 	sc := f.Func("", "sortCandidates")
-	if tr != nil && sc != nil {
-		ok := f.Contains(tr.Body, "if fromTime == nil && toTime == nil { return candidates }") &&
-			f.Contains(tr.Body, "if fromTime != nil && ts < fromNs { continue } if toTime != nil && ts >= toNs { continue }") &&
-			!strings.Contains(f.Str(tr.Body), "== 0") && !strings.Contains(f.Str(sc.Body), "== 0")
-		if !ok {
-			fs.Tri("bucketChecksAttr", Unknown, c08At(c08Exec, f, tr))
-		}
-		// the window step runs for every beacon type; beaconTimeOf answers 0 for the key index
-		bt := f.Func("", "beaconTimeOf")
-		if ok && bt != nil && !strings.Contains(f.Str(tr.Body), "BeaconTypeKey") && strings.HasSuffix(f.Str(bt.Body), "} return 0 }") {
-			fs.Tri("bucketWindowTimeOnly", No, c08At(c08Exec, f, tr))
+	bt := f.Func("", "beaconTimeOf")
+	if tr != nil && sc != nil && bt != nil && strings.HasSuffix(f.Str(bt.Body), "} return 0 }") && !strings.Contains(f.Str(sc.Body), "== 0") {
+		src := f.Str(tr.Body)
+		loop := strings.Contains(src, "if fromTime != nil && ts < fromNs { continue } if toTime != nil && ts >= toNs { continue }")
+		where := c08At(c08Exec, f, tr)
+		switch {
+		case loop && strings.HasPrefix(src, "{ if fromTime == nil && toTime == nil { return candidates } var fromNs") && !strings.Contains(src, "ts == 0"):
+			// old shape: no window → everything; window → every beacon type, the key index with timestamp 0
+			fs.Tri("bucketChecksAttr", No, where)
+			fs.Tri("bucketWindowTimeOnly", No, where)
+		case loop && strings.HasPrefix(src, "{ if beaconType == hydra.BeaconTypeKey { return candidates } var fromNs") &&
+			strings.Contains(src, "ts := beaconTimeOf(t, beaconType) if ts == 0 { continue }"):
+			fs.Tri("bucketChecksAttr", Yes, where)
+			fs.Tri("bucketWindowTimeOnly", Yes, where)
+		case loop && strings.HasPrefix(src, "{ if (fromTime == nil && toTime == nil) || beaconType == hydra.BeaconTypeKey { return candidates } var fromNs") && !strings.Contains(src, "ts == 0"):
+			fs.Tri("bucketChecksAttr", No, where)
+			fs.Tri("bucketWindowTimeOnly", Yes, where)
+		case loop && strings.HasPrefix(src, "{ var fromNs") && strings.Contains(src, "ts := beaconTimeOf(t, beaconType) if ts == 0 { continue }"):
+			// zero check for every beacon type would also empty key-ordered queries: not a modelled shape
+			fs.Tri("bucketChecksAttr", Unknown, where)
+		default:
+			fs.Tri("bucketChecksAttr", Unknown, where)
+			fs.Tri("bucketWindowTimeOnly", Unknown, where)
 		}
 	}
 }
